@@ -359,6 +359,10 @@ def list_eq(a, b):
 
 
 def val_eq(a, b):
+    if isinstance(a, SymKey):
+        a = a.term
+    if isinstance(b, SymKey):
+        b = b.term
     if isinstance(a, OptV) or isinstance(b, OptV):
         if a is None:
             return b.isnone
